@@ -6,5 +6,6 @@ CONSTANTS InitPen = 1
           Grid = {0, 1, 2, 3, 4}
           NSeries = 2
           MaxLen = 5
+          WithCounterInputs = FALSE
 INVARIANTS C40_EveryAggregateSampleKept EachChunkComplete NothingInvented ChunksInOrder OnlyDoneIsFinal
 CHECK_DEADLOCK FALSE
